@@ -46,7 +46,7 @@ class MetricActionContext(ActionContext):
                                                                         metric.help, metric.unit, value)
                 except Exception:
                     # a processor that fails costs only its own report: the other processors and metrics still run
-                    deep.logging.exception("Cannot report metric %s to %s", metric.name, processor)
+                    deep.logging.exception("Cannot report metric %s to %s", metric, processor)
 
     def __has_metric_processor(self):
         return self.trigger_context.config.has_metric_processor
